@@ -18,6 +18,7 @@ import shutil
 import subprocess
 import tempfile
 import traceback
+import contextlib
 
 VERIF = os.path.dirname(os.path.dirname(os.path.abspath(__file__)))
 REPO = os.environ.get("VERIF_REPO", "/repo")
@@ -180,6 +181,22 @@ class Check:
                 jsonable(detail))[:400]))
         self.violations.append({"clause": clause, "key": key, "replay": path})
         return True
+
+    @contextlib.contextmanager
+    def guarded(self, clause, key, detail=None, replay=None):
+        """An exception raised by the code under test where the property
+        demands a result is a violation of that clause, not a harness
+        failure."""
+        try:
+            yield
+        except MachineryFailure:
+            raise
+        except Exception as e:
+            tb = traceback.format_exc()
+            d = dict(detail or {})
+            d.update(exception=repr(e)[:300], traceback=tb[-700:])
+            self.violation(clause, "%s:exception:%s" % (key, type(e).__name__),
+                           d, replay)
 
     # -------------------------------------------------------------------- TLC
     def tlc(self, module, cfg=None, workers=None, simulate=None, depth=None,
